@@ -343,6 +343,18 @@ def job_wire(a):
             ep2.feed(fr)
         sent.append(body)
         n += 1
+    # ... and every cut of the frame HEADER including the four key octets (all three length
+    # encodings): the key is complete before the first payload octet is unmasked
+    for L in (5, 126, 300, 65536):
+        body = bytes((71 * j + L) & 0xFF for j in range(L))
+        key = bytes(((L * 13 + k * 11 + 3) & 0xFF) for k in range(4))
+        fr = F.encode(2, body, mask=key)
+        hlen = len(fr) - L
+        for cutpos in range(1, hlen + 2):
+            ep2.feed(fr[:cutpos])
+            ep2.feed(fr[cutpos:])
+            sent.append(body)
+            n += 1
     if role == "client":
         # receive-side options do not change what this client sends: still masked with fresh keys
         for opts2 in ({"acceptMaskedServerFrames": True}, {"acceptMaskedServerFrames": False},
